@@ -777,9 +777,8 @@ func (d *Deserializer) ReadVariableByteSlice(slice *[]byte, lenType SeriLengthPr
 		d.err = errProducer(ierrors.Wrapf(ErrDeserializationLengthMinNotReached, "denoted %d bytes, min required %d ", sliceLength, minLen))
 	}
 
-	dest := make([]byte, sliceLength)
 	if sliceLength == 0 {
-		*slice = dest
+		*slice = make([]byte, 0)
 
 		return d
 	}
@@ -790,6 +789,8 @@ func (d *Deserializer) ReadVariableByteSlice(slice *[]byte, lenType SeriLengthPr
 		return d
 	}
 
+	// allocate only after the denoted length is known to be available
+	dest := make([]byte, sliceLength)
 	copy(dest, d.src[d.offset:d.offset+sliceLength])
 	*slice = dest
 
